@@ -18,12 +18,16 @@ class Style:
     explicit parenthesis - otherwise the directives would belong to that method)."""
 
     def __init__(self, nl="\n", indent=IND, comments=0.0, blank=0.0, trailing=False, quote=0.0, parens=0.0,
-                 rnd=None, tabs_between=False, late=0.0):
+                 rnd=None, tabs_between=False, late=0.0, pathref=0.0):
         self.nl, self.indent = nl, indent
         self.comments, self.blank, self.trailing = comments, blank, trailing
         self.quote, self.parens, self.rnd = quote, parens, rnd
         self.tabs_between = tabs_between
         self.late = late
+        # pathref: probability of writing a Path body as the NAME of a type that holds the properties (directly, through an
+        # alias type, or with one property inherited through allOf); the types are renderer-private ("@zr_..."), appended
+        # to the document and dropped again by project()
+        self.pathref = pathref
 
     def flip(self, p):
         return p > 0 and self.rnd is not None and self.rnd.random() < p
@@ -99,6 +103,7 @@ class Out:
         self.style = style
         self.spans = []   # [label, keyword begin, depth]
         self.after_text = True   # nothing emitted yet / last line was free text: no trivia here
+        self.private_types = []  # lines of renderer-private TYPE blocks to append
 
     def raw(self, s):
         self.parts.append(s)
@@ -230,6 +235,25 @@ QRY = {"k": "obj", "n": "", "props": [{"key": "q1", "vk": "int", "vn": ""}], "al
 
 
 def render_pathdecl(o, depth, names):
+    if names and o.style.flip(o.style.pathref):
+        k = len(o.private_types) + 1
+        form = o.style.rnd.randrange(3)
+        props = ['  "%s": 1%s' % (n, "," if i < len(names) - 1 else "") for i, n in enumerate(names)]
+        if form == 2 and len(names) >= 2:
+            # the first property comes from a base type
+            o.private_types.append(["TYPE @zr_b%d" % k, "{", '  "%s": 1' % names[0], "}"])
+            o.private_types.append(["TYPE @zr_p%d" % k, '{ // {allOf: "@zr_b%d"}' % k] +
+                                   ['  "%s": 1%s' % (n, "," if i < len(names) - 2 else "") for i, n in enumerate(names[1:])] + ["}"])
+            target = "@zr_p%d" % k
+        else:
+            o.private_types.append(["TYPE @zr_p%d" % k, "{"] + props + ["}"])
+            target = "@zr_p%d" % k
+            if form == 1:
+                o.private_types.append(["TYPE @zr_q%d" % k, "@zr_p%d" % k])
+                target = "@zr_q%d" % k
+        o.line(depth, "Path", "Path")
+        o.line(depth + 1, target)
+        return
     if names:
         o.line(depth, "Path", "Path")
         ll = ["{"] + ['  "%s": 1%s' % (n, "," if i < len(names) - 1 else "") for i, n in enumerate(names)] + ["}"]
@@ -388,6 +412,9 @@ def render(doc, style=None, header=True):
         b0 = o.pos
         render_block(o, b)
         bs.append((b0, o.pos))
+    for lines in o.private_types:
+        o.line(0, lines[0], "TYPE")
+        o.lines(0, lines[1:])
     return o.text(), bs, o.spans
 
 
@@ -488,6 +515,8 @@ def project(text):
     for name, s in (val.get("servers").pairs if val.get("servers") else []):
         cat["servers"].append({"name": name, "annot": s.get("annotation", ""), "base": s.get("baseUrl", "")})
     for name, t in (val.get("userTypes").pairs if val.get("userTypes") else []):
+        if name.startswith("@zr_"):
+            continue              # renderer-private types (Style.pathref)
         cat["types"].append({"name": name, "annot": t.get("annotation", ""), "schema": sv(t.get("schema"))})
     for name, e in (val.get("userEnums").pairs if val.get("userEnums") else []):
         vals = [c.get("scalarValue", "") for c in (e.get("value").get("children") or [])]
